@@ -163,6 +163,48 @@ fn check_transform(sys: &Sys, tier: Tier) -> CaseOut {
             }
         }
     }
+    // points with NaN or infinite coordinates. Only the unambiguous verdict is demanded: such a point is not contained
+    // when some row is violated whatever the ambiguous terms are taken to be, i.e. a row reads NaN (a NaN coordinate
+    // with a non-zero coefficient, or +inf - inf) or +inf, or its finite part alone already exceeds the bias while no
+    // coordinate with a non-zero coefficient is infinite.
+    let specials = [f64::NAN, f64::INFINITY, f64::NEG_INFINITY];
+    let mut weird: Vec<Vec<f64>> = vec![];
+    for pos in 0..n {
+        for sp in specials {
+            for other in [0.0, 5.0, -5.0] {
+                let mut x = vec![other; n];
+                x[pos] = sp;
+                weird.push(x);
+            }
+        }
+    }
+    if n >= 2 {
+        weird.push(vec![f64::INFINITY; n]);
+        weird.push((0..n).map(|i| if i % 2 == 0 { f64::INFINITY } else { f64::NEG_INFINITY }).collect());
+    }
+    for x in &weird {
+        out.add("evaluations", 1);
+        let mut must_be_outside = false;
+        for (a, b) in &sys.rows {
+            let mut s = 0.0f64;
+            for (aj, xj) in a.iter().zip(x.iter()) {
+                if *aj != 0.0 {
+                    s += aj * xj;
+                }
+            }
+            if s.is_nan() || s == f64::INFINITY || (s.is_finite() && s > *b + 1.0) {
+                must_be_outside = true;
+            }
+        }
+        if !must_be_outside {
+            continue;
+        }
+        match catch(|| p.contains(&Array1::from(x.clone()))) {
+            Err(m) => v(&mut out, "contains", "panic", format!("contains panicked: {m}"), rec("contains", json!(format!("{:?}", x)))),
+            Ok(true) => v(&mut out, "contains", "nonfinite_point", format!("contains({:?}) = true although a row is violated or undefined there", x), rec("contains", json!(format!("{:?}", x)))),
+            Ok(false) => {}
+        }
+    }
     // translate
     let dirs = lattice(n, &[-1.0, 0.0, 0.5, 2.0]);
     for d in &dirs {
@@ -518,6 +560,17 @@ pub fn cases(tier: Tier) -> Vec<Case> {
             for m in 1..=2 { for s in systems(2, m, &coef, &bias) { v.push(Case::Transform(s)); } }
             for s in systems(2, 3, &[0.0, 1.0, -1.0], &[-1.0, 0.0, 1.0]) { v.push(Case::Transform(s)); }
             for (i, s) in systems(3, 2, &[0.0, 1.0, -1.0], &[0.0, 1.0]).into_iter().enumerate() { if i % 2 == 0 { v.push(Case::Transform(s)); } }
+        }
+    }
+    // zero rows whose bias is -0.0 (a tautology, as from_normal produces for a degenerate normal), alone and next to
+    // ordinary rows
+    for n in 1..=2usize {
+        let z = (vec![0.0; n], -0.0f64);
+        v.push(Case::Transform(Sys { n, rows: vec![z.clone()] }));
+        for b in [-1.0, 0.0, 1.0] {
+            let r = ((0..n).map(|i| if i == 0 { 1.0 } else { -1.0 }).collect::<Vec<f64>>(), b);
+            v.push(Case::Transform(Sys { n, rows: vec![z.clone(), r.clone()] }));
+            v.push(Case::Transform(Sys { n, rows: vec![r, z.clone()] }));
         }
     }
     for d in 1..=(if tier == Tier::Quick { 4 } else { 5 }) {
